@@ -35,7 +35,7 @@ MAX_PATHS = {"quick": 3000, "thorough": 20000}
 
 
 def patch_spec(case):
-    return S.patch_spec()
+    return S.patch_spec(extra_modules=["tdgl.solver.options"])
 
 
 def cases(tier, seed):
@@ -65,7 +65,7 @@ def body(H, case):
     mult = H.real("mult", lo=0.0, hi=1.0, lo_open=True, hi_open=True)
     opts = S.make_options(dt_init=dt_init, dt_max=dt_max, adaptive=case.adaptive, adaptive_window=W, max_solve_retries=R,
                           adaptive_time_step_multiplier=mult)
-    solver = S.make_solver(H, dev, opts, validate=False)
+    solver = S.make_solver(H, dev, opts, validate=True)  # the real SolverOptions.validate() runs (twice)
     H.prove_eq("initial tentative dt = dt_init", solver.tentative_dt, dt_init)
     inductive = case.mode == "inductive"
     if inductive:
